@@ -112,6 +112,19 @@ fn expect_bin(b: BinaryOpcode, x: D, y: D) -> Option<(D, f64)> {
 fn check_row(dag: &Dag, roots: &[Node], row: &[Grad], pvals: &[f32], backend: &str, checked: &mut usize, skipped: &mut usize) -> Vec<String> {
     let mut bad = vec![];
     let idx: HashMap<usize, usize> = roots.iter().enumerate().map(|(k, n)| (n.verif_index(), k)).collect();
+    // a tie of min/max anywhere (in particular +0 against -0) is a non-differentiable locus: the
+    // property excludes the point, and the two evaluators may pick different zeros there
+    for n in roots.iter() {
+        if let Some(Op::Binary(BinaryOpcode::Min | BinaryOpcode::Max, l, r)) = dag.ctx.get_op(*n) {
+            let val = |c: &Node| match dag.ctx.get_op(*c) { Some(Op::Const(f)) => Some(f.0), _ => idx.get(&c.verif_index()).map(|j| row[*j].v) };
+            if let (Some(a), Some(b)) = (val(l), val(r)) { if a == b { *skipped += roots.len(); return bad; } }
+        }
+        // zeros of abs likewise (Grad::abs keeps -0.0, f32::abs gives +0.0)
+        if let Some(Op::Unary(UnaryOpcode::Abs, a)) = dag.ctx.get_op(*n) {
+            let v = match dag.ctx.get_op(*a) { Some(Op::Const(f)) => Some(f.0), _ => idx.get(&a.verif_index()).map(|j| row[*j].v) };
+            if v == Some(0.0) { *skipped += roots.len(); return bad; }
+        }
+    }
     for (k, n) in roots.iter().enumerate() {
         // the value lane is the point evaluator's value
         let (gv, pv) = (row[k].v, pvals[k]);
